@@ -198,6 +198,7 @@ def step (s : St) (line : String) : St × String :=
       -- Close triggered on the input goroutine: model = the statement list of the kill-signal arm / of the
       -- deferred recover handler, as regenerated from openTty (`Props.C04.signal_path_is_close`, `panic_path_is_close`)
       if impl = "hang" then (s, "-\thang\tFAIL Close triggered from the input goroutine never completes") else
+      if impl = "killed" then (s, "-\tkilled\tFAIL the termination signal killed the process: no handler was installed for this capability set, the terminal is left as it was") else
       if impl = "nopanic" then (s, "-\t-\t-") else
       match lex impl with
       | some itoks =>
